@@ -227,6 +227,13 @@ func genProgram(rt *rapid.T, allowFail bool) Case {
 			expect = append(expect, fmt.Sprintf("R%d:%d:%d:%d\n", i, rangeLen*(rangeLen-1)/2, rangeLen, rangeLen*(rangeLen+1)/2))
 		}
 	}
+	if failing > 0 && rapid.IntRange(0, 2).Draw(rt, "mainSleepsThroughTheFailure") == 0 {
+		// the first fatal interrupt is reported AND the rest is cancelled: a main thread that is still asleep long after
+		// a thread has failed is woken by the cancellation, it does not get to print
+		pk.Class("main-asleep-while-a-thread-fails")
+		b.WriteString("    time.sleep(4.0);\n    println(\"LATE-MAIN\");\n")
+		mainFirst = true
+	}
 	if !mainFirst {
 		fmt.Fprintf(&b, "    let m = 0;\n    while m < %d {\n        m += 1;\n", iters)
 		if useCounter {
